@@ -5,30 +5,31 @@ From LV Require Import Invoice.Model Invoice.Proofs.
 Import ListNotations.
 
 Definition exH (p : N) : N := (p + 100)%N.          (* preimage p hashes to 100+p *)
-Definition ex_cfg : cfg := mkCfg 4 false false true.
-Definition mpp_inv : invoice := mkInv 101 7 1000 (Some 1%N) 9 false false true COpen [] 0.
-Definition hodl_inv : invoice := mkInv 102 0 500 None 4 true false false COpen [] 0.
+Definition exR (l : list (N * N)) : list (N * N) := [].   (* no AMP in these histories *)
+Definition ex_cfg : cfg := mkCfg 4 false false true false.
+Definition mpp_inv : invoice := mkInv 101 7 1000 (Some 1%N) 9 false false true COpen [] 0 [].
+Definition hodl_inv : invoice := mkInv 102 0 500 None 4 true false false COpen [] 0 [].
 Definition shard (k amt : N) : hctx :=
-  mkCtx 101 k amt 110 100 (Some (7%N, 1000%N)) false None 0 KSNone.
-Definition legacy (k amt : N) : hctx := mkCtx 102 k amt 110 100 None false None 0 KSNone.
+  mkCtx 101 k amt 110 100 (Some (7%N, 1000%N)) false None 0 KSNone 0 0 0.
+Definition legacy (k amt : N) : hctx := mkCtx 102 k amt 110 100 None false None 0 KSNone 0 0 0.
 
 (* an MPP set of two shards settles on the second shard; the first one is
    notified on its hodl subscription *)
 Example ex_mpp_settles :
-  snd (run exH ex_cfg init [EAdd mpp_inv; ENotify (shard 1 400); ENotify (shard 2 600)]) =
+  snd (run exH exR ex_cfg init [EAdd mpp_inv; ENotify (shard 1 400); ENotify (shard 2 600)]) =
   [(RpApi AOk, []); (RpDirect DNil, []);
    (RpDirect (DRes (NSettle 2 1 100 S_Settled)), [NSettle 1 1 100 S_Settled])].
 Proof. vm_compute. reflexivity. Qed.
 
 (* one msat short: held, nothing released *)
 Example ex_mpp_short :
-  snd (run exH ex_cfg init [EAdd mpp_inv; ENotify (shard 1 400); ENotify (shard 2 599)]) =
+  snd (run exH exR ex_cfg init [EAdd mpp_inv; ENotify (shard 1 400); ENotify (shard 2 599)]) =
   [(RpApi AOk, []); (RpDirect DNil, []); (RpDirect DNil, [])].
 Proof. vm_compute. reflexivity. Qed.
 
 (* hold invoice: accept, settle with the preimage, replay answers Settle *)
 Example ex_hodl :
-  snd (run exH ex_cfg init [EAdd hodl_inv; ENotify (legacy 5 500); ESettleHodl 2;
+  snd (run exH exR ex_cfg init [EAdd hodl_inv; ENotify (legacy 5 500); ESettleHodl 2;
                             ENotify (legacy 5 500)]) =
   [(RpApi AOk, []); (RpDirect DNil, []); (RpApi AOk, [NSettle 5 2 100 S_Settled]);
    (RpDirect (DRes (NSettle 5 2 100 S_ReplayToSettled)), [])].
@@ -36,7 +37,7 @@ Proof. vm_compute. reflexivity. Qed.
 
 (* the hypotheses of C15_replay_same_verdict hold on that history *)
 Example ex_replay_hyps :
-  let st := fst (run exH ex_cfg init [EAdd hodl_inv; ENotify (legacy 5 500); ESettleHodl 2]) in
+  let st := fst (run exH exR ex_cfg init [EAdd hodl_inv; ENotify (legacy 5 500); ESettleHodl 2]) in
   exists i h,
     lookup_ref (g_kv ex_cfg) (invs st) (fst (ctx_ref (legacy 5 500))) (snd (ctx_ref (legacy 5 500)))
       = Some i /\
@@ -46,7 +47,7 @@ Proof. vm_compute. eexists. eexists. repeat split; reflexivity. Qed.
 
 (* set timeout cancels the held shard, the replay is then failed *)
 Example ex_timeout :
-  snd (run exH ex_cfg init [EAdd mpp_inv; ENotify (shard 1 400); ETimeout 101 (Some 7%N) 1;
+  snd (run exH exR ex_cfg init [EAdd mpp_inv; ENotify (shard 1 400); ETimeout 101 (Some 7%N) 1;
                             ENotify (shard 1 400)]) =
   [(RpApi AOk, []); (RpDirect DNil, []); (RpApi AOk, [NFail 1 100 F_MppTimeout]);
    (RpDirect (DRes (NFail 1 100 F_ReplayToCanceled)), [])].
@@ -54,13 +55,93 @@ Proof. vm_compute. reflexivity. Qed.
 
 (* wrong payment address / mismatching total / expiry one block short *)
 Example ex_rejects :
-  snd (run exH ex_cfg init
+  snd (run exH exR ex_cfg init
            [EAdd mpp_inv;
-            ENotify (mkCtx 101 1 400 110 100 (Some (8%N, 1000%N)) false None 0 KSNone);
+            ENotify (mkCtx 101 1 400 110 100 (Some (8%N, 1000%N)) false None 0 KSNone 0 0 0);
             ENotify (shard 2 400);
-            ENotify (mkCtx 101 3 600 110 100 (Some (7%N, 1001%N)) false None 0 KSNone);
-            ENotify (mkCtx 101 4 600 108 100 (Some (7%N, 1000%N)) false None 0 KSNone)]) =
+            ENotify (mkCtx 101 3 600 110 100 (Some (7%N, 1001%N)) false None 0 KSNone 0 0 0);
+            ENotify (mkCtx 101 4 600 108 100 (Some (7%N, 1000%N)) false None 0 KSNone 0 0 0)]) =
   [(RpApi AOk, []); (RpDirect (DRes (NFail 1 100 F_AddressMismatch)), []); (RpDirect DNil, []);
    (RpDirect (DRes (NFail 3 100 F_SetTotalMismatch)), []);
    (RpDirect (DRes (NFail 4 100 F_ExpiryTooSoon)), [])].
+Proof. vm_compute. reflexivity. Qed.
+
+(* ---- AMP (witness functions of Proofs.v: preimage 10+n hashes to 20+n; the
+   oracle reconstructs a lone share s to (hash 20+s, preimage 10+s), the
+   two-share set {4,5} with indices 0,1 to (24,14),(25,15)) ---- *)
+Definition ampR (l : list (N * N)) : list (N * N) :=
+  match l with
+  | [(s, _)] => [((s + 20)%N, (s + 10)%N)]
+  | [(5, 1); (4, 0)]%N => [(25, 15); (24, 14)]%N
+  | _ => []
+  end.
+Definition amp_cfg : cfg := mkCfg 4 false false false false.
+Definition amp_shard (k s idx sid amt : N) : hctx :=
+  mkCtx (s + 20) k amt 110 100 (Some (7%N, 1000%N)) true None 0 KSNone sid s idx.
+
+(* a two-shard AMP set settles on the second shard, each htlc with its own
+   preimage; the invoice stays open; a replay is answered from the record *)
+Example ex_amp_settles :
+  snd (run ampw_H ampR amp_cfg init
+           [EAdd ampw_inv; ENotify (amp_shard 1 4 0 3 400); ENotify (amp_shard 2 5 1 3 600);
+            ENotify (amp_shard 1 4 0 3 400)]) =
+  [(RpApi AOk, []); (RpDirect DNil, []);
+   (RpDirect (DRes (NSettle 2 15 100 S_Settled)), [NSettle 1 14 100 S_Settled]);
+   (RpDirect (DRes (NSettle 1 14 100 S_ReplayToSettled)), [])] /\
+  map i_state (invs (fst (run ampw_H ampR amp_cfg init
+           [EAdd ampw_inv; ENotify (amp_shard 1 4 0 3 400); ENotify (amp_shard 2 5 1 3 600)]))) = [COpen] /\
+  map i_sets (invs (fst (run ampw_H ampR amp_cfg init
+           [EAdd ampw_inv; ENotify (amp_shard 1 4 0 3 400); ENotify (amp_shard 2 5 1 3 600)]))) =
+    [[(3%N, (HSettled, 1000%N))]].
+Proof. vm_compute. repeat split; reflexivity. Qed.
+
+(* the hypotheses of C15_replay_same_verdict_amp hold on that history *)
+Example ex_amp_replay_hyps :
+  let st := fst (run ampw_H ampR amp_cfg init
+           [EAdd ampw_inv; ENotify (amp_shard 1 4 0 3 400); ENotify (amp_shard 2 5 1 3 600)]) in
+  let c := amp_shard 1 4 0 3 400 in
+  exists i h, lookup_ref (g_kv amp_cfg) (invs st) None (Some 7%N) = Some i /\ i_amp i = true /\
+              find_htlc (c_key c) (i_htlcs i) = Some h /\ h_set h = Some (c_set c) /\
+              h_hash h = c_hash c /\ h_state h = HSettled.
+Proof. vm_compute. eexists. eexists. repeat split; reflexivity. Qed.
+
+(* one msat short: held; a shard of ANOTHER set id does not complete it; the set
+   timeout cancels one shard, AmtPaid and AMPState[set] go down *)
+Example ex_amp_short :
+  snd (run ampw_H ampR amp_cfg init
+           [EAdd ampw_inv; ENotify (amp_shard 1 4 0 3 400); ENotify (amp_shard 2 5 1 3 599);
+            ENotify (amp_shard 3 6 0 8 600); ETimeoutSet 3 1]) =
+  [(RpApi AOk, []); (RpDirect DNil, []); (RpDirect DNil, []); (RpDirect DNil, []);
+   (RpApi AOk, [NFail 1 100 F_MppTimeout])] /\
+  map (fun i => (i_paid i, i_sets i)) (invs (fst (run ampw_H ampR amp_cfg init
+           [EAdd ampw_inv; ENotify (amp_shard 1 4 0 3 400); ENotify (amp_shard 2 5 1 3 599);
+            ENotify (amp_shard 3 6 0 8 600); ETimeoutSet 3 1]))) =
+    [(1199%N, [(3%N, (HCanceled, 599%N)); (8%N, (HAccepted, 600%N))])].
+Proof. vm_compute. split; reflexivity. Qed.
+
+(* a child whose hash does not match the reconstruction: the set and the whole
+   invoice are cancelled, nothing is released *)
+Example ex_amp_bad_share :
+  snd (run ampw_H ampR amp_cfg init
+           [EAdd ampw_inv; ENotify (amp_shard 1 4 0 3 400); ENotify (amp_shard 2 5 9 3 600)]) =
+  [(RpApi AOk, []); (RpDirect DNil, []);
+   (RpDirect (DRes (NFail 2 100 F_AmpReconstruction)), [NFail 1 100 F_AmpReconstruction])] /\
+  map i_state (invs (fst (run ampw_H ampR amp_cfg init
+           [EAdd ampw_inv; ENotify (amp_shard 1 4 0 3 400); ENotify (amp_shard 2 5 9 3 600)]))) = [CCanceled].
+Proof. vm_compute. split; reflexivity. Qed.
+
+(* mismatching total inside a set, total below the invoice value, the blank
+   set id, an AMP htlc without MPP record *)
+Example ex_amp_rejects :
+  snd (run ampw_H ampR amp_cfg init
+           [EAdd ampw_inv; ENotify (amp_shard 1 4 0 3 400);
+            ENotify (mkCtx 25 2 600 110 100 (Some (7%N, 1001%N)) true None 0 KSNone 3 5 1);
+            ENotify (mkCtx 26 3 999 110 100 (Some (7%N, 999%N)) true None 0 KSNone 8 6 0);
+            ENotify (amp_shard 4 6 0 0 1000);
+            ENotify (mkCtx 26 5 1000 110 100 None true None 0 KSNone 8 6 0)]) =
+  [(RpApi AOk, []); (RpDirect DNil, []);
+   (RpDirect (DRes (NFail 2 100 F_SetTotalMismatch)), []);
+   (RpDirect (DRes (NFail 3 100 F_SetTotalTooLow)), []);
+   (RpDirect (DRes (NFail 4 100 F_AmpError)), []);
+   (RpDirect (DRes (NFail 5 100 F_InvoiceNotFound)), [])].
 Proof. vm_compute. reflexivity. Qed.
